@@ -214,6 +214,12 @@ Definition edge (w : world) (u v : uref) : Prop :=
   end.
 Definition acyclic (w : world) : Prop := forall u, ~ clos_trans uref (edge w) u u.
 
+(** The models import from one another along a DAG (no chain of imports leads from a model back to itself).  The import
+    cycle detection of the library is by model url, so it (rightly, for CellML forbids it) refuses such chains even when the
+    units definitions themselves are acyclic. *)
+Definition model_dag (w : world) : Prop :=
+  exists rk : nat -> nat, forall mi n mj r, lookup w mi n = Some (Import mj r) -> (rk mi < rk mj)%nat.
+
 (* set_units w mi name d: the world in which the (first) units called name of model mi is defined by d *)
 Fixpoint set_assoc {A} (k : string) (v : A) (l : list (string * A)) : list (string * A) :=
   match l with
